@@ -17,6 +17,7 @@
 -/
 import XotModel.Lemmas.RoundTripDefs
 import XotModel.Lemmas.Entity
+import XotModel.Lemmas.SharedDefs
 
 namespace XotModel
 open Gen
@@ -154,10 +155,7 @@ def Token.isText : Token → Bool
   | .text _ => true
   | _ => false
 
-def Token.isCharData : Token → Bool
-  | .text _ => true
-  | .cdata _ _ => true
-  | _ => false
+-- `Token.isCharData` (text and CDATA tokens) is in `Lemmas/SharedDefs.lean`.
 
 /-- No two text tokens in a row. -/
 def noAdjTextTok : List Token → Bool
